@@ -139,8 +139,54 @@ func BuildType(t TypeSpec, k int, ptrSeq *int) reflect.Type {
 	panic("unknown type kind " + t.Kind)
 }
 
+// Static filler types of unusual kinds, registered through the generic ComponentID[T] (never used by entities).
+type (
+	FIface      interface{ Area() float64 }
+	FEmptyIface interface{}
+	FFunc       func(int) int
+	FMap        map[string]int
+	FPtr        *Canary
+	FChan       chan int
+	FSlice      []byte
+	FStr        string
+	FInt8       int8
+	FEmpty      struct{}
+	FArr        [3]uint16
+	FBool       bool
+)
+
+type staticFiller struct {
+	tp  reflect.Type
+	reg func(w *ecs.World) ecs.ID
+}
+
+func sf[T any]() staticFiller {
+	return staticFiller{reflect.TypeOf((*T)(nil)).Elem(), func(w *ecs.World) ecs.ID { return ecs.ComponentID[T](w) }}
+}
+
+var staticFillers = []staticFiller{sf[FIface](), sf[FEmptyIface](), sf[FFunc](), sf[FMap](), sf[FPtr](), sf[FChan](),
+	sf[FSlice](), sf[FStr](), sf[FInt8](), sf[FEmpty](), sf[FArr](), sf[FBool]()}
+
+func staticFillerOf(n int) (staticFiller, bool) {
+	if n >= 0 && n%5 == 2 && n/5 < len(staticFillers) {
+		return staticFillers[n/5], true
+	}
+	return staticFiller{}, false
+}
+
+// registerFiller registers the n-th filler type: the static ones through ComponentID[T], the others through TypeID.
+func registerFiller(w *ecs.World, n int) ecs.ID {
+	if f, ok := staticFillerOf(n); ok {
+		return f.reg(w)
+	}
+	return ecs.TypeID(w, FillerType(n))
+}
+
 // FillerType returns the n-th filler type (zero-sized or small, never used by entities).
 func FillerType(n int) reflect.Type {
+	if f, ok := staticFillerOf(n); ok {
+		return f.tp
+	}
 	name := fmt.Sprintf("Z%d", n)
 	if n%3 == 0 {
 		return reflect.StructOf([]reflect.StructField{{Name: name, Type: reflect.TypeOf(uint16(0))}})
